@@ -6,5 +6,5 @@ export CARGO_NET_OFFLINE=true
 python3 tools/gen_consts.py coq/gen/Consts.v
 (cd coq && coq_makefile -f _CoqProject -o Makefile >/dev/null && timeout 3000 make -j16 >/dev/null)
 [ -f harness/Cargo.lock ] || cp /repo/Cargo.lock harness/Cargo.lock 2>/dev/null || cp harness/Cargo.lock.seed harness/Cargo.lock
-(cd harness && RUSTFLAGS="--cfg btdht_verif" timeout 3000 cargo build --offline 2>&1 | tail -2)
+(cd harness && CARGO_TARGET_DIR="$(pwd)/../.cache/target" RUSTFLAGS="--cfg btdht_verif" timeout 3000 cargo build --offline 2>&1 | tail -2)
 echo setup done
